@@ -28,7 +28,7 @@ PROPS = {
     "C10": dict(flavours=["asan"], quick=300000, thorough=8000000, chunk=4000, level="exploration"),
     "C13": dict(flavours=["asan"], quick=1000000, thorough=40000000, chunk=20000, level="exploration"),
     "C18": dict(flavours=["asan"], quick=150000, thorough=4000000, chunk=2000, level="exploration"),
-    "C19": dict(flavours=["asan", "tsan"], quick=1500, thorough=60000, chunk=50, level="exploration"),
+    "C19": dict(flavours=["asan", "tsan"], quick=10000, thorough=400000, chunk=100, level="exploration"),
     "C20": dict(flavours=["asan"], quick=6000, thorough=150000, chunk=100, level="fault_enumeration"),
 }
 
@@ -435,7 +435,7 @@ def process_violation(flavour, prop, seed, raw, known, outdir):
         return dict(kind="harness", msg="run %d of %s: %s %s has no library frame: defect of the harness or of a dependency, not reported as a violation\n%s" % (idx, prop, r1["cls"], r1["site"], r1.get("stderr", "")[-1500:]))
     sig = signature(r1)
     pre = match_known(prop, r1, known)
-    sh = Shrinker(flavour, prop, lanes, sig)
+    sh = Shrinker(flavour, prop, lanes, sig, max_attempts=400 if r1["fatal"] else 700, max_seconds=60 if r1["fatal"] else 120)
     best = sh.run() or r1
     final_lanes = sh.lanes if sh.best_res else lanes
     desc = exec_plan(flavour, prop, final_lanes, describe=True)
@@ -534,7 +534,7 @@ def cmd_check(prop, tier, runs, jobs, seed):
         groups = {}
         for r in sorted(raw, key=lambda x: x["idx"]):
             groups.setdefault(signature(r), []).append(r)
-        for sig, items in list(groups.items())[:12]:
+        for sig, items in list(groups.items())[:6]:
             res = process_violation(flavour, prop, seed, items[0], known, outdir)
             if res["kind"] == "harness":
                 harness_msgs.append(res["msg"])
